@@ -28,6 +28,16 @@ def atomic_write_text(path: Path, text: str) -> None:
     os.replace(tmp_path, path)
 
 
+def read_text_as_is(path: Path) -> str:
+    """Reads the text stored in {path} WITHOUT translating its line endings.
+
+    Path.read_text() turns '\r\n' into '\n', so a file that is read that way
+    and then written back gets all of its line endings changed.
+    """
+    with path.open(newline="") as f:
+        return f.read()
+
+
 def get_only_item(items: Iterable[_T]) -> _T:
     """Returns the only element in {items} OR raises a ValueError."""
     items = list(items)
